@@ -12,6 +12,7 @@ Trace inclusion for the read-ahead protocol (core Lean only): is an observed eve
 -/
 import Hts.Drv.Util
 import Hts.Model.ReaderLTS
+import Hts.Model.ReaderLTSFile
 import Std.Data.HashSet
 namespace Hts.Drv.C02Lts
 open Hts.Drv Hts.Model.ReadAhead
@@ -43,12 +44,9 @@ def parseEv (s : String) : Option Ev :=
     | _ => none
   else none
 
-/-- the chain of a file given by its member sizes -/
-def chainOf (cs : List Nat) : Chain := fun b =>
-  let rec go : List Nat → Nat → Option Nat
-    | [], _ => none
-    | c :: rest, base => if b = base then some (base + c) else if b < base then none else go rest (base + c)
-  go cs 0
+/-- the chain of a file given by its member sizes: `Hts.Model.ReadAhead.chainOf` of the file with these sizes
+(payloads do not matter to the protocol) -/
+def chainOf (cs : List Nat) : Chain := Hts.Model.ReadAhead.chainOf (cs.map fun c => ⟨[], c⟩)
 
 def mkCfg (rd : Nat) (faults : Bool) (cs : List Nat) (script : List Op) : Cfg :=
   { rd := rd, chain := chainOf cs, script := script, faults := faults }
